@@ -156,7 +156,7 @@ def r4_determinism(ctx, res):
 
 
 _HP = "list(synset.relation_paths('hypernym', 'instance_hypernym'))"
-_ROOT = '_core.Synset.empty(id=_FAKE_ROOT, _lexid=synset._lexid, _wordnet=synset._wordnet)'
+_ROOT = '_core.Synset.empty(id=_FAKE_ROOT, _wordnet=synset._wordnet)'
 _COMMON = 'set(flatten(_hypernym_paths(synset, simulate_root, True))).intersection(flatten(_hypernym_paths(other, simulate_root, True)))'
 # the common hypernyms in result order: sorted (by rowid), ties - inferred synsets all carry the placeholder rowid - in the order
 # of first occurrence on the paths from `synset`, never in the iteration order of the set (C16)
@@ -297,10 +297,58 @@ def r5_anchors(ctx, res):
             res.find(key + ':init', v.loc(), 'the depth no longer starts at 0')
 
 
+def r6_one_simulated_root(ctx, res):
+    """simulate_root joins ALL roots only if the simulated root is one and the same element of every ancestor set: the sets are
+    Python sets, so the roots built for two synsets must be equal AND hash alike.  Synset.__hash__ reads (_ENTITY_TYPE, _ili,
+    _lexid, _id): the fake root is therefore constructed with constants in those fields - never with a value taken from the
+    synset it is built for (`_lexid=synset._lexid` gives the roots of a lexicon and of its extension different hashes: nothing is
+    shared, shortest_path raises although simulate_root was asked for)."""
+    from .c10 import _fields
+    core = ctx.repo.mod('_core')
+    syn = core.classes['Synset']
+    hs = ctx.repo.lookup_method(syn, '__hash__')
+    hf = _fields(hs, syn) if hs is not None else set()
+    # constructor parameter -> attribute it initialises (Synset.empty / Synset.__init__ keep the names: ili -> _ili, _lexid, _id)
+    param_attr = {'ili': '_ili', '_lexid': '_lexid', '_id': '_id', 'lexid': '_lexid'}
+    n = 0
+    for f in ctx.repo.all_funcs():
+        if f.module.short != 'taxonomy':
+            continue
+        for node in walk_no_nested(f.node):
+            if not (isinstance(node, ast.Call) and norm(node.func).split('.')[-2:] in (['Synset', 'empty'], ['_core', 'Synset'])
+                    or (isinstance(node, ast.Call) and norm(node.func).endswith('Synset.empty'))):
+                continue
+            kws = {k.arg: k.value for k in node.keywords if k.arg}
+            idv = kws.get('id', node.args[0] if node.args else None)
+            if idv is None or norm(idv) != '_FAKE_ROOT':
+                continue
+            n += 1
+            key = f'one-simulated-root:{f.qualname}'
+            varying = {k: norm(v) for k, v in kws.items() if param_attr.get(k) in hf and not isinstance(v, ast.Constant)
+                       and norm(v) not in ('NON_ROWID', '_db.NON_ROWID')}
+            res.inst(key, f.module.loc(node), f'hash fields {sorted(hf)}; non-constant among them: {varying}')
+            if varying:
+                res.find(key, f.module.loc(node),
+                         f'{f.qualname} builds the simulated root with {varying}: Synset.__hash__ reads {sorted(hf)}, so the roots simulated '
+                         f'for synsets of different lexicons hash differently and are never found to be shared - simulate_root does not '
+                         f'join the roots of a lexicon and its extension')
+    if n < 1:
+        raise AnalysisError('no construction of the simulated root (Synset.empty(id=_FAKE_ROOT ...)) found in wn/taxonomy.py')
+
+
+def r7_traversal_stays_in_the_wordnet(ctx, res):
+    """the hypernym graph the taxonomy functions walk is the graph of ONE Wordnet: every synset a relation step constructs is
+    handed the Wordnet of the synset it was reached from (C04-R7) - a target built without it falls back to a default-mode
+    Wordnet() and continues the walk over every installed lexicon from the second hop on."""
+    from .c04 import r7_wordnet_handed_on
+    r7_wordnet_handed_on(ctx, res)
+
 RULES = [
     ('C13-R1', r1_termination, 5),
     ('C13-R2', r2_forwarding, 10),
     ('C13-R3', r3_as_merge, 1),
     ('C13-R4', r4_determinism, 10),
     ('C13-R5', r5_anchors, 14),
+    ('C13-R6', r6_one_simulated_root, 1),
+    ('C13-R7', r7_traversal_stays_in_the_wordnet, 12),
 ]
